@@ -152,9 +152,10 @@ def check (op : OpObs) (pre post : Views) (seen : Array Bool) : List Fail :=
         | none => mk ["C20"] "slice-zero-channels" s!"s={s} e={e} outcome={outcome}" false
       else
       let mustPanic := decide (s < 0 ∨ s > e ∨ e > p.capacity)
-      let props := tagDegenerate p ["C02"]
+      -- slicing is also part of C12's histories: a view of a view behaves like a Go slice of a slice
+      let props := tagDegenerate p ["C02", "C12"]
       if mustPanic then
-        mk ["C02"] "slice-panics-iff" s!"s={s} e={e} capacity={p.capacity} ch={p.ch} outcome={outcome}" (outcome != "ok") ++ fr
+        mk ["C02", "C12"] "slice-panics-iff" s!"s={s} e={e} capacity={p.capacity} ch={p.ch} outcome={outcome}" (outcome != "ok") ++ fr
       else
         match view post vid with
         | none => mk props "slice-panics-iff" s!"s={s} e={e} capacity={p.capacity} ch={p.ch} outcome={outcome}" false ++ fr
